@@ -32,7 +32,7 @@ pub fn check_case(col: &mut Collector, arena: &Arena, vals: &[&Val], apis: &[(Bi
         for buf in ALL_BUF {
             col.evaluations += 1;
             tr.reset_pos();
-            let window = match catch(|| pilota_size(Prot::Unsafe, vals, wapi)) {
+            let window = match catch(|| vdrive::drive::pilota_size_zc(Prot::Unsafe, vals, wapi, buf == BufKind::LinkedZc)) {
                 Caught::Ok(n) => n,
                 Caught::Panic(loc, msg) => {
                     col.fail(format!("C11|writer|size-{}", panic_sig(&loc, &msg)), case(buf.name()), msg);
